@@ -448,6 +448,97 @@ func (v *Verifier) immutableHeap(heap string) bool {
 	return false
 }
 
+// uncoveredRegions: every function of the monitor's package that locks the monitor's mutex must be
+// under contract (so that its regions are verified); returns the keys of those that are not.
+func (v *Verifier) uncoveredRegions(prop string) []string {
+	var out []string
+	for _, m := range v.db.Monitors {
+		if prop != "" && !hasProp(m.Props, prop) {
+			continue
+		}
+		sp := v.spkgs[m.PkgPath]
+		if sp == nil {
+			continue
+		}
+		for _, f := range v.allFuncs(sp) {
+			if f.Blocks == nil {
+				continue
+			}
+			locks := false
+			for _, b := range f.Blocks {
+				for _, ins := range b.Instrs {
+					c, ok := ins.(*ssa.Call)
+					if !ok {
+						continue
+					}
+					cf, ok := c.Call.Value.(*ssa.Function)
+					if !ok || mutexOp(cf.String()) == "" || len(c.Call.Args) == 0 {
+						continue
+					}
+					fa, ok := c.Call.Args[0].(*ssa.FieldAddr)
+					if !ok {
+						continue
+					}
+					pt := derefType(fa.X.Type())
+					n, ok := pt.(*types.Named)
+					if !ok || n.Obj().Name() != m.TypeName || n.Obj().Pkg() == nil || n.Obj().Pkg().Path() != m.PkgPath {
+						continue
+					}
+					if pt.Underlying().(*types.Struct).Field(fa.Field).Name() == m.MutexField {
+						locks = true
+					}
+				}
+			}
+			if !locks {
+				continue
+			}
+			key := v.contractKeyFor(f)
+			if fc, ok := v.db.Funcs[key]; !ok || fc.Trusted {
+				out = append(out, fmt.Sprintf("monitor %s.%s: region in %s is not under contract", m.TypeName, m.MutexField, strings.TrimPrefix(key, m.PkgPath+".")))
+			}
+		}
+	}
+	sort.Strings(out)
+	return out
+}
+
+func (v *Verifier) allFuncs(sp *ssa.Package) []*ssa.Function {
+	var fns []*ssa.Function
+	seen := map[*ssa.Function]bool{}
+	var add func(f *ssa.Function)
+	add = func(f *ssa.Function) {
+		if f == nil || seen[f] {
+			return
+		}
+		seen[f] = true
+		fns = append(fns, f)
+		for _, a := range f.AnonFuncs {
+			add(a)
+		}
+	}
+	var names []string
+	for n := range sp.Members {
+		names = append(names, n)
+	}
+	sort.Strings(names)
+	for _, n := range names {
+		switch m := sp.Members[n].(type) {
+		case *ssa.Function:
+			add(m)
+		case *ssa.Type:
+			for _, t := range []types.Type{m.Type(), types.NewPointer(m.Type())} {
+				ms := v.prog.MethodSets.MethodSet(t)
+				for i := 0; i < ms.Len(); i++ {
+					if f := v.prog.MethodValue(ms.At(i)); f != nil && f.Pkg == sp {
+						add(f)
+					}
+				}
+			}
+		}
+	}
+	return fns
+}
+
 // checkImmutable: syntactic side condition — a declared-immutable field is stored to only
 // (a) through a fresh allocation of the same function (composite literal under construction) or
 // (b) inside a declared writer function. Returns human-readable violations.
@@ -624,9 +715,29 @@ func (v *Verifier) verifyFunc(fullKey string, fc *FuncContract) (rep *FuncReport
 		e.resultT = append(e.resultT, rs.At(i).Type())
 	}
 	ret := e.run(st)
+	if ret != nil && fc.PerReturn {
+		for j, r := range e.retStates {
+			e.results = r.vals
+			for i, en := range fc.Ensures {
+				g := e.evalClause(en, r.st, e.oldState(), nil)
+				if g == tTrue {
+					continue
+				}
+				e.obls = append(e.obls, &Obligation{Name: fmt.Sprintf("%s/ensures#%d@return#%d", e.funcKey, i+1, j+1), Kind: "ensures", Goal: g, Hyp: r.st.pc,
+					Func: e.funcKey, Text: en.Text, Props: unionProps(orProps(en.Props, fc.Props)), Mode: fc.Mode, exec: e, Pos: fn.Pos(), Strings: fc.Strings})
+			}
+		}
+		e.results = nil
+		for i := range e.retStates[0].vals {
+			e.results = append(e.results, ret.locals[fmt.Sprintf("$ret%d", i)])
+		}
+	}
 	if ret != nil {
 		for i, en := range fc.Ensures {
-			g := e.evalClause(en, ret, s, nil)
+			if fc.PerReturn {
+				break
+			}
+			g := e.evalClause(en, ret, e.oldState(), nil)
 			e.obls = append(e.obls, &Obligation{Name: fmt.Sprintf("%s/ensures#%d", e.funcKey, i+1), Kind: "ensures", Goal: g, Hyp: ret.pc,
 				Func: e.funcKey, Text: en.Text, Props: unionProps(orProps(en.Props, fc.Props)), Mode: fc.Mode, exec: e, Pos: fn.Pos(), Strings: fc.Strings})
 		}
@@ -714,7 +825,7 @@ func (e *Exec) frameObligations(ret, entry *State, fc *FuncContract) {
 			continue
 		}
 		h1 := ret.heaps[k]
-		h0, ok := entry.heaps[k]
+		h0, ok := e.oldState().heaps[k]
 		if !ok {
 			h0 = TS.Const("heap0:"+sanitize(k), h1.Sort)
 		}
